@@ -152,6 +152,18 @@ def runtime_builtins():
     return names
 
 
+def assigned_in_generated_functions(source):
+    """names that the code generated for rules (not the runtime text) assigns: on a healthy tree all of them are reserved
+    (leading underscore) or the user's own; anything else is a temporary that a user name could collide with"""
+    out = set()
+    for fn in ast.walk(ast.parse(source)):
+        if isinstance(fn, ast.FunctionDef) and fn.name.startswith(('_try_', '_function_', '_parse_')):
+            for n in ast.walk(fn):
+                if isinstance(n, ast.Name) and isinstance(n.ctx, ast.Store):
+                    out.add(n.id)
+    return out
+
+
 def emitted_parameters(source):
     return {n.arg for n in ast.walk(ast.parse(source)) if isinstance(n, ast.arg)}
 
@@ -268,7 +280,7 @@ def run(tier, seed, lean):
             'generated function name without its prefix': stripped | {'ignored', 'anonymous_0_0', 'try_start'},
             'random identifier': {'q7x', 'Zed', 'snake_case_name', 'CamelCase', 'x', 'l1', 'O0', 'aA9'},
             'temporary-like': temp_like,
-            'name used by generated code or runtime': {n for n in runtime_locals if not hasattr(builtins, n)},
+            'name used by generated code or runtime': {n for n in runtime_locals if not hasattr(builtins, n)} | (assigned_in_generated_functions(base_mod._source_code) - set(base_names.values())),
             'builtin read by the runtime': set(rt_builtins) | {n for n in ids if hasattr(builtins, n)} | {'len', 'slice', 'list', 'id', 'object', 'dict', 'type'},
             'expression constructor': set(ctor_names),
             # names that mean something to the translator or to the description language, but are ordinary identifiers
@@ -278,7 +290,7 @@ def run(tier, seed, lean):
         }
         for pool_name, pool in pools.items():
             cands = sorted(n for n in pool if n.isidentifier() and not keyword.iskeyword(n) and not n.startswith('_') and n not in API and n not in own_python)
-            always = emitted_parameters(base_mod._source_code)
+            always = emitted_parameters(base_mod._source_code) | (assigned_in_generated_functions(base_mod._source_code) - set(base_names.values()))
             if pool_name == 'builtin read by the runtime':
                 # a builtin that the runtime reads and that no recorded finding lists is either harmless or new: never sampled away
                 always = always | {n for n in cands if not any(f'runtime-builtin:{k}:{n}' in LISTED for k in 'RCTfpv')}
